@@ -182,7 +182,9 @@ impl Config {
                 0 => {
                     if let Some(m) = self.mode {
                         if decoy {
-                            b.mode(MODES[2]);
+                            // any other mode, also one whose alphabet does not contain the input: it is overridden
+                            // before anything is built, so it must leave no trace (not even on the stored input)
+                            b.mode(MODES[(m + 1 + rng.below(2)) % 3]);
                         }
                         b.mode(MODES[m]);
                     }
@@ -514,6 +516,68 @@ pub fn hand_assembled(qr: &QRCode) -> QRCode {
     let mut h = QRCode::default(qr.size);
     h.data = qr.data;
     h
+}
+
+/// A built symbol edited through the public API (`QRCode.data`, `Module::set` / `toggle`, the `Module` constructors)
+/// before it is rendered: renderers are given "a QR code" and must follow its module VALUES, whatever the type labels
+/// next to them say and whether or not the matrix is still a valid symbol. Returns the edited copy and what was done.
+pub fn edited_by_hand(qr: &QRCode, seed: u64) -> (QRCode, String) {
+    let mut rng = oracle::rng::Rng::new(oracle::rng::mix(seed, 0xed17));
+    let mut e = qr.clone();
+    let n = e.size;
+    let what = match rng.below(7) {
+        0 | 1 => {
+            let edits = 1 + rng.below(4);
+            for k in 0..edits {
+                let (r, c) = match (k + rng.below(2)) % 4 {
+                    0 => (rng.below(n), rng.below(n.min(12))),
+                    1 => (rng.below(n.min(12)), rng.below(n)),
+                    2 => (rng.below(n), n - 1 - rng.below(n.min(6))),
+                    _ => (rng.below(n), rng.below(n)),
+                };
+                e.data[r * n + c].toggle();
+            }
+            format!("{edits} module(s) toggled")
+        }
+        2 => {
+            for m in e.data[..n * n].iter_mut() {
+                m.toggle();
+            }
+            "every module toggled (inverted symbol)".to_string()
+        }
+        3 => {
+            let to = rng.chance(1, 2);
+            for m in e.data[..n * n].iter_mut() {
+                if m.module_type() != ModuleType::Data {
+                    m.set(to);
+                }
+            }
+            format!("every function-pattern module set {}", if to { "dark" } else { "light" })
+        }
+        4 => {
+            let mut k = 0;
+            for m in e.data[..n * n].iter_mut() {
+                if matches!(m.module_type(), ModuleType::DarkModule | ModuleType::Format | ModuleType::Version) {
+                    m.toggle();
+                    k += 1;
+                }
+            }
+            format!("the dark module and every format/version module toggled ({k})")
+        }
+        5 => {
+            for m in e.data[..n * n].iter_mut() {
+                *m = fast_qr::Module::data(m.value());
+            }
+            "every module relabelled as Data, values kept".to_string()
+        }
+        _ => {
+            for m in e.data[..n * n].iter_mut() {
+                *m = fast_qr::Module::empty(m.value());
+            }
+            "every module relabelled as Empty, values kept".to_string()
+        }
+    };
+    (e, what)
 }
 
 /// Module values of the size x size square.
